@@ -33,6 +33,7 @@ def script_for(ev):
     kin = ev["kin"]
     sc.model(S.model_lines(ev))
     sc.ok("data 0 0")
+    sc.ok("free 1")
     S.sanity(sc, ev)
     sc.oks(S.state_lines(ev))
     sc.ok("forward 0")
@@ -56,23 +57,23 @@ def script_for(ev):
     sc.vec("get 0 subtree_com", "subtree_com", com, skip=3)
     z3nv = [0] * (3 * nv)
     for b in range(1, n + 1):
-        jr = S.flat(ev["jacr"][b - 1])
-        sc.vec("jac 0 body %d" % b, "jacBody", S.flat(ev["jacp"][b - 1]) + jr, exact=rotfree)
-        sc.vec("jacsp 0 %d" % b, "jacSparse", S.flat(ev["jacp"][b - 1]) + jr, exact=rotfree)
-        sc.vec("jac 0 bodycom %d" % b, "jacBodyCom", S.flat(ev["jacc"][b - 1]) + jr, exact=rotfree)
-        sc.vec("jac 0 site %d" % (b - 1), "jacSite", S.flat(ev["jacs"][b - 1]) + jr, exact=rotfree)
-        sc.vec("jac 0 geom %d" % (b - 1), "jacGeom", S.flat(ev["jacs"][b - 1]) + jr, exact=rotfree)
+        jr = S.jac_flat(ev["jacr"][b - 1])
+        sc.vec("jac 0 body %d" % b, "jacBody", S.jac_flat(ev["jacp"][b - 1]) + jr, exact=rotfree)
+        sc.vec("jacsp 0 %d" % b, "jacSparse", S.jac_flat(ev["jacp"][b - 1]) + jr, exact=rotfree)
+        sc.vec("jac 0 bodycom %d" % b, "jacBodyCom", S.jac_flat(ev["jacc"][b - 1]) + jr, exact=rotfree)
+        sc.vec("jac 0 site %d" % (b - 1), "jacSite", S.jac_flat(ev["jacs"][b - 1]) + jr, exact=rotfree)
+        sc.vec("jac 0 geom %d" % (b - 1), "jacGeom", S.jac_flat(ev["jacs"][b - 1]) + jr, exact=rotfree)
         sc.vec("jac 0 subtree %d" % b, "jacSubtreeCom",
-               [Fraction(x, ev["submass"][b - 1]) for x in S.flat(ev["subjac"][b - 1])] + z3nv)
+               [Fraction(x, ev["submass"][b - 1]) for x in S.jac_flat(ev["subjac"][b - 1])] + z3nv)
         if ev["level"] >= 2:
             v = ev["vel"][b - 1]
             sc.vec("objvel 0 2 %d 0" % b, "objectVelocity(xbody)", S.flat(v["w"]) + S.flat(v["vo"]))
             sc.vec("objvel 0 1 %d 0" % b, "objectVelocity(body)", S.flat(v["w"]) + S.flat(v["vc"]))
             sc.vec("objvel 0 6 %d 0" % (b - 1), "objectVelocity(site)", S.flat(v["w"]) + S.flat(v["vs"]))
             sc.vec("jacdot 0 %d %s" % (b, " ".join(S.num(x) for x in P[b - 1])), "jacDot(xpos)",
-                   S.flat(ev["jdp"][b - 1]) + S.flat(ev["jdr"][b - 1]))
+                   S.jac_flat(ev["jdp"][b - 1]) + S.jac_flat(ev["jdr"][b - 1]))
             sc.vec("jacdot 0 %d %s" % (b, " ".join(S.num(x) for x in kin[b - 1]["c"])), "jacDot(xipos)",
-                   S.flat(ev["jdc"][b - 1]) + S.flat(ev["jdr"][b - 1]))
+                   S.jac_flat(ev["jdc"][b - 1]) + S.jac_flat(ev["jdr"][b - 1]))
     # positions after one lattice step forth / back of every coordinate (mj_integratePos), and the way back
     q0 = [ev["bodies"][b - 1]["q"] * S.unit_of(ev, i) for i, b in enumerate(ev["dofs"])]
     for d in range(nv):
@@ -99,85 +100,32 @@ def sig_of(ev, label):
     return "C07:%s:joints=%s" % (label, "".join(sorted(set(S.features(ev)))))
 
 
-def check_models(ctx, exe, evs, tag):
-    cases = [(i, script_for(ev)) for i, ev in enumerate(evs)]
-    res, r = S.run_cases(exe, cases)
-    for (i, mm, sc, got) in res:
-        ev = evs[i]
-        ctx.case(S.key_of(ev), nontrivial=ev["nv"] > 0,
-                 sample={"joints": S.features(ev), "parents": [b["par"] for b in ev["bodies"]]})
-        if mm is None:
-            ctx.trace_ok()
-            continue
-        k, label, detail = mm
-        if label == "machinery":
-            raise Machinery("harness/protocol problem in %s model %d: %s (command %r)" % (tag, i, detail, sc_cmd(sc, k)))
-        if label == "crash":
-            ctx.violation("C07:crash", "harness died: " + r.crash_text(), {"script": sc.lines})
-            break
-        S.violation(ctx, sig_of(ev, label), "%s of model %s: %s" % (label, S.features(ev), detail), sc, k,
-                    {"model": S.key_of(ev)})
-    return res
-
-
-def sc_cmd(sc, k):
-    """command whose output is the k-th expectation"""
-    j = 0
-    skipping = False
-    for ln in sc.lines:
-        if skipping:
-            if ln == "end":
-                skipping = False
-                j += 1
-            continue
-        if ln.startswith("model "):
-            if j == k:
-                return ln
-            skipping = True
-            continue
-        if j == k:
-            return ln
-        j += 1
-    return "?"
+NEED = {
+    "a hinge below a hinge, both moving (Coriolis terms in jacDot)":
+        lambda ev: any(b["jt"] == "hinge" and b["v"] != 0 and b["par"] > 0 and ev["bodies"][b["par"] - 1]["jt"] == "hinge"
+                       and ev["bodies"][b["par"] - 1]["v"] != 0 for b in ev["bodies"]),
+    "a slide below a moving hinge": lambda ev: any(b["jt"] == "slide" and b["par"] > 0 and ev["bodies"][b["par"] - 1]["jt"] == "hinge"
+                                                   for b in ev["bodies"]),
+    "a branching tree": lambda ev: len([b for b in ev["bodies"] if b["par"] == 0]) > 1 or any(
+        len([c for c in ev["bodies"] if c["par"] == k]) > 1 for k in range(1, ev["n"] + 1)),
+    "a jointless body": lambda ev: any(b["jt"] == "none" for b in ev["bodies"]),
+}
 
 
 def run(ctx):
-    exe = S.harness()
     ctx.assume("trees of at most 4 bodies in depth-first order, one slide or hinge joint per body on a signed coordinate axis",
                "integer offsets / anchors / inertial frames, body and site orientations and hinge angles multiples of a quarter turn",
                "comparison tolerance 1e-9 relative to the largest entry (exact when no rotation is involved)")
-    cfg = "SmoothLattice_C07MC.cfg" if ctx.quick else "SmoothLattice_C07Deep.cfg"
-    res, evs = S.mc_models(SPEC, os.path.join(S.TLA, cfg), timeout=1500)
-    ctx.tlc_ok(res, cfg[:-4], need_actions=["PickA", "PickB", "PickC", "PickG", "Kin", "Fd", "Vel", "Mass", "Dyn", "Finish"])
-    if not evs:
-        raise Machinery("no finished models in the exhaustive run")
-    nsim = 120 if ctx.quick else 1500
-    res2, sims = S.sim_models(SPEC, os.path.join(S.TLA, "SmoothLattice_C07Sim.cfg"), num=nsim, depth=40,
-                              seed=ctx.seed + 7, timeout=1500)
-    ctx.tlc_ok(res2, "SmoothLattice_C07Sim")
-    if len(sims) < nsim // 2:
-        raise Machinery("simulation produced only %d finished models" % len(sims))
-    r1 = check_models(ctx, exe, evs, "MC")
-    check_models(ctx, exe, sims, "Sim")
-    # negative control: a perturbed expectation (one Jacobian entry, one position) must be flagged
-    (i, mm, sc, got) = next(x for x in r1 if x[2].exp and evs[x[0]]["nv"] > 0)
-    bad = list(sc.exp)
-    k = next(j for j, e in enumerate(bad) if e[0] == "vec" and e[1] == "jacBody")
-    w = list(bad[k][2])
-    w[0] += 1.0
-    bad[k] = bad[k][:2] + (w,) + bad[k][3:]
-    ctx.control("perturbed Jacobian entry is flagged", S.compare(bad, got) is not None)
-    k = next(j for j, e in enumerate(bad) if e[0] == "vec" and e[1] == "integratePos+1:xpos")
-    bad = list(sc.exp)
-    w = list(bad[k][2])
-    w[-1] += 1e-6
-    bad[k] = bad[k][:2] + (w,) + bad[k][3:]
-    ctx.control("position off by 1e-6 after integratePos is flagged", S.compare(bad, got) is not None)
-    ctx.cov["exhaustive"] = bool(res.finished)
-    ctx.cov["rule"] = ("every finished model of the exhaustive lattice %s (%d models) and %d simulated models of up to 4 "
-                       "bodies over the large value sets are built through mjSpec and compared field by field; "
-                       "non-trivial = at least one dof; distinct = distinct model+state descriptions" % (
-                           cfg[:-4], len(evs), len(sims)))
+    if ctx.quick:
+        mcs, nsim, cov = ["SmoothLattice_C07MC.cfg"], 150, None
+    else:
+        mcs, nsim, cov = ["SmoothLattice_C07MC2.cfg", "SmoothLattice_C07Deep.cfg"], 1500, "SmoothLattice_Cov.cfg"
+    allres = S.run_lattice(ctx, "C07", SPEC, mcs, "SmoothLattice_C07Sim.cfg", nsim, script_for, sig_of, need=NEED, cov_cfg=cov,
+                           neg_cfg=None if ctx.quick else ("SmoothLattice_C07Neg.cfg", "NegOneSidedDifference"))
+    r1 = allres[0][1]
+    S.perturb_control(ctx, "perturbed Jacobian entry is flagged", r1, "jacBody", 1.0)
+    S.perturb_control(ctx, "position off by 1e-6 after integratePos is flagged", r1, "integratePos+1:xpos", 1e-6, index=2)
+    S.perturb_control(ctx, "perturbed jacDot entry is flagged", allres[-1][1], "jacDot(xipos)", 0.5)
 
 
 def replay(ctx, rp):
